@@ -265,3 +265,29 @@ Definition read_dispatch (arms : list read_arm) (mask allbits arch len : Z) (fla
   | Some a => if len <? ra_size a then RReadFailure
               else if cpu_from_flags mask allbits (flags_of a) =? ra_flag a then RVariant (ra_variant a) else RReadFailure
   end.
+
+(* Deserialisation (scroll's derive(Pread): fields in declared order, packed; little- or big-endian): the register file a
+   context read from [bytes] holds.  [ct_fields] carries every integer field's element width, array length and byte offset
+   (regenerated from format.rs). *)
+Fixpoint decode_le (bytes : Z -> Z) (off : Z) (n : nat) : Z :=
+  match n with O => 0 | S k => bytes off + 256 * decode_le bytes (off + 1) k end.
+Fixpoint decode_be (bytes : Z -> Z) (off : Z) (n : nat) (acc : Z) : Z :=
+  match n with O => acc | S k => decode_be bytes (off + 1) k (acc * 256 + bytes off) end.
+Definition decode (big : bool) (bytes : Z -> Z) (off : Z) (n : nat) : Z :=
+  if big then decode_be bytes off n 0 else decode_le bytes off n.
+Fixpoint field_layout (f : name) (fs : list (name * Z * Z * Z)) : option (Z * Z * Z) :=   (* width, array length or -1, offset *)
+  match fs with
+  | [] => None
+  | (g, w, n, off) :: r => if name_eqb f g then Some (w, n, off) else field_layout f r
+  end.
+(* first byte of the element a location denotes *)
+Definition loc_offset (c : ctx_table) (l : loc) : option Z :=
+  match field_layout (l_field l) (ct_fields c) with
+  | Some (w, _, off) => Some (off + (if l_idx l <? 0 then 0 else l_idx l) * (w / 8))
+  | None => None
+  end.
+Definition decode_base (c : ctx_table) (big : bool) (bytes : Z -> Z) : regfile :=
+  fun f i => match field_layout f (ct_fields c) with
+             | Some (w, _, off) => decode big bytes (off + (if i <? 0 then 0 else i) * (w / 8)) (Z.to_nat (w / 8))
+             | None => 0
+             end.
